@@ -54,4 +54,38 @@ inline std::vector<std::string> words(const std::string& line) {
 }
 
 } // namespace verif
+
+// ---- hook H1: event log of the recording buffers (only when built with the verification guard) ----
+#ifdef RJHOGAN_ADEPT_2_VERIF
+namespace verif {
+struct EventLog {
+  static std::string& buf() { static std::string b; return b; }
+  static long& faults() { static long f = 0; return f; }
+  static void cb(char kind, long a, long b) {
+    std::string& s = buf();
+    char tmp[64];
+    switch (kind) {
+      case 'c': snprintf(tmp, sizeof tmp, " c%ld", a); s += tmp; break;
+      case 'p': s += " p"; break;
+      case 'i': snprintf(tmp, sizeof tmp, " i%ldx%ld", a, b); s += tmp; break;
+      case 'l': s += " l"; break;
+      case 'r': snprintf(tmp, sizeof tmp, " r%ld", a); s += tmp; break;
+      case 'g': case 's': break;   // growth is a consequence, not an input, of the model
+      case 'F': faults()++; snprintf(tmp, sizeof tmp, " F%ld/%ld", a, b); s += tmp; break;
+      default: break;
+    }
+  }
+  static void install() { adept::internal::verif_event_ = &EventLog::cb; }
+  static void uninstall() { adept::internal::verif_event_ = 0; }
+  // "E <nOps>/<allocOps> <nSt>/<allocSt> :<events since the last call>"
+  static std::string take(const adept::Stack& st) {
+    std::ostringstream os;
+    os << "E " << st.n_operations() << "/" << st.n_allocated_operations() << " "
+       << st.n_statements() << "/" << st.n_allocated_statements() << " :" << buf();
+    buf().clear();
+    return os.str();
+  }
+};
+} // namespace verif
+#endif
 #endif
